@@ -32,6 +32,46 @@ Theorem C33_seed_agreement :
 Proof. exact vrf_seed_agreement. Qed.
 Print Assumptions C33_seed_agreement.
 
+(* The same over histories with round restarts (timeout: Round.Restart + IncrementTimeoutCount, the
+   message changes with the timeout count): a restart empties the admitted set; after any history
+   the admitted shares verify against the CURRENT message; two miners that end under the same
+   message and both have a seed have the same seed, the hash of the group signature on it. *)
+Theorem C33_seed_agreement_with_restarts :
+  forall (F : fieldType) (G1 G2 GT : lmodType F) (g2 : G2) (M : Type) (H : M -> G1)
+         (e : G1 -> G2 -> GT) (Seed : Type) (seed_of : G1 -> Seed),
+    (forall a x y, e (a *: x) y = a *: e x y) -> (forall a x y, e x (a *: y) = a *: e x y) ->
+    (forall x y, e x g2 = e y g2 -> x = y) ->
+  forall (css : seq (seq F)) (members : seq F) (t : nat),
+    (0 < t)%N -> 0 \notin members -> all (fun cs => size cs <= t)%N css ->
+  forall (m1 m2 : M) (hs1 hs2 : seq (vrf_hev G1 M)) (sd1 sd2 : Seed),
+    let mpks := [seq dkg_mpk g2 cs | cs <- css] in
+    let s1 := vrf_hrun g2 H e t mpks members (m1, [::]) hs1 in
+    let s2 := vrf_hrun g2 H e t mpks members (m2, [::]) hs2 in
+    s1.1 = s2.1 ->
+    vrf_seed seed_of t s1.2 = Some sd1 -> vrf_seed seed_of t s2.2 = Some sd2 ->
+    sd1 = sd2 /\ sd1 = seed_of (dkg_sign H (dkg_gsk css) s1.1).
+Proof. exact vrf_hist_seed_agreement. Qed.
+Print Assumptions C33_seed_agreement_with_restarts.
+
+Theorem C33_counted_shares_verify_current_message :
+  forall (F : fieldType) (G1 G2 GT : lmodType F) (g2 : G2) (M : Type) (H : M -> G1)
+         (e : G1 -> G2 -> GT) (css : seq (seq F)) (members : seq F) (t : nat)
+         (s : M * seq (vrf_ev G1)) (hs : seq (vrf_hev G1 M)),
+    let mpks := [seq dkg_mpk g2 cs | cs <- css] in
+    vrf_inv g2 H e css members s.1 t s.2 ->
+    let s' := vrf_hrun g2 H e t mpks members s hs in
+    vrf_inv g2 H e css members s'.1 t s'.2.
+Proof. exact vrf_hrun_inv. Qed.
+Print Assumptions C33_counted_shares_verify_current_message.
+
+Theorem C33_restart_empties :
+  forall (F : fieldType) (G1 G2 GT : lmodType F) (g2 : G2) (M : Type) (H : M -> G1)
+         (e : G1 -> G2 -> GT) (css : seq (seq F)) (members : seq F) (t : nat)
+         (s : M * seq (vrf_ev G1)) (m' : M),
+    vrf_hstep g2 H e t [seq dkg_mpk g2 cs | cs <- css] members s (VRestart G1 m') = (m', [::]).
+Proof. exact vrf_restart_empties. Qed.
+Print Assumptions C33_restart_empties.
+
 (* The same for any two sets of at least t verified shares of distinct miners. *)
 Theorem C33_seed_of_any_verified_set :
   forall (F : fieldType) (G1 G2 GT : lmodType F) (g2 : G2) (M : Type) (H : M -> G1)
